@@ -12,6 +12,10 @@ GEN_LAYOUT_TRUST = [
     "tools/gen_layout.py (translator: tokenizer + recursive-descent parser + symbolic evaluator over the closed vocabulary of the view-algebra member functions of index_range.hpp, layout.hpp and array_ref.hpp; regenerates lean/MultiModel/Gen/LayoutGen.lean from the current headers on every run; MultiProofs/GenTie.lean proves each regenerated function equal to the hand model, so for these functions the hand transcription is CHECKED against the source text, not only sampled)",
 ]
 
+GEN_ITERS_TRUST = [
+    "tools/gen_iters.py (translator, same tokenizer/parser as gen_layout.py: regenerates lean/MultiModel/Gen/IterGen.lean — extensions_t from_linear/to_linear/next_canonical/prev_canonical, array_iterator (D>1, D=1) and elements_iterator_t/elements_range_t operators — from the current headers on every run; MultiProofs/GenTieIter.lean proves each regenerated function equal to the hand model MultiModel/Iter.lean)",
+]
+
 VIEW_RULE = ("programs = root extents (D 1..4, sizes 0..6, num_elements <= 240) + 0..7 in-domain view operations drawn from the real view's "
              "current shape + queries; distinct = different program text; non-trivial = at least one operation and a queried view with >= 2 elements")
 
